@@ -57,6 +57,27 @@ func Coverage(gids ...int) []byte {
 	return w.B
 }
 
+// CoverageRanges writes a coverage table, format 2, from (start glyph, end
+// glyph, start coverage index) triples, exactly as given.
+func CoverageRanges(ranges ...[3]int) []byte {
+	w := &W{}
+	w.U16(2, len(ranges))
+	for _, r := range ranges {
+		w.U16(r[0], r[1], r[2])
+	}
+	return w.B
+}
+
+// ReplaceCoverage returns a copy of a subtable whose second field is the
+// offset of its coverage table (all GSUB subtables written by this package
+// except the format 3 contexts), with that offset pointing at cov, which is
+// appended at the end.
+func ReplaceCoverage(sub, cov []byte) []byte {
+	out := append([]byte(nil), sub...)
+	out[2], out[3] = byte(len(out)>>8), byte(len(out))
+	return append(out, cov...)
+}
+
 // ClassDef writes a class definition table, format 1.
 func ClassDef(startGlyph int, classes ...int) []byte {
 	w := &W{}
